@@ -126,13 +126,20 @@ Proof.
   split; [exact (W_nodup evs H) | exact (W_leave_ens evs H)].
 Qed.
 
+Lemma idx_find_In ino v l : idx_find ino l = Some v -> In (ino, v) l.
+Proof.
+  induction l as [|[i w] l IH]; cbn [idx_find]; [discriminate|].
+  destruct (N.eqb i ino) eqn:E; [|intros H; right; apply IH; exact H].
+  apply N.eqb_eq in E. intros H. inversion H; subst. left; reflexivity.
+Qed.
+
 Lemma restore_body_local o sel P t tree fs0 :
   physdir fs0 P -> facts (t_evs (traverse sel tree)) ->
   let T := P ++ [t] in
   let tr := traverse sel tree in
-  let s1 := fold_left (pass1_ev o T) (t_evs tr) (mkP fs0 [] []) in
+  let s1 := fold_left (pass1_ev o T) (t_evs tr) (mkP fs0 [] [] []) in
   let fs2 := restore_files (o_delete o) (p_fs s1) (p_files s1) in
-  local T fs0 (fold_left (pass2_ev o sel (andb (o_delete o) (negb (t_invalid tr))) T (p_tracked s1)) (t_evs tr) fs2).
+  local T fs0 (fold_left (pass2_ev o sel (andb (o_delete o) (negb (t_invalid tr))) T (p_tracked s1) (p_idx s1)) (t_evs tr) fs2).
 Proof.
   intros HP Hwf T tr s1 fs2.
   destruct (traverse_head sel tree) as [evs' Eevs].
@@ -142,23 +149,22 @@ Proof.
   assert (H1 : physdir (p_fs s1) T /\ local T fs0 (p_fs s1) /\
                (forall d, In d (ensured_of evs) -> physdir (p_fs s1) (T ++ d)) /\
                (forall pc, In pc (p_files s1) ->
-                  exists d n c m loc, In (EvVisit d (NFile n c m) loc) evs /\ pc = (T ++ d ++ [n], c)) /\
-               (forall l, In l (p_tracked s1) ->
-                  exists d n c m, In (EvVisit d (NFile n c m) l) evs /\ In (T ++ d ++ [n], c) (p_files s1))).
+                  exists d nd loc, In (EvVisit d nd loc) evs /\ fst pc = T ++ d ++ [node_name nd]) /\
+               (forall iv, In iv (p_idx s1) -> exists d nd, In (EvVisit d nd (snd iv)) evs)).
   { unfold s1. rewrite Eevs. cbn [fold_left].
     destruct (ensure_root P t fs0 HP) as [f1 [E1 [Hl1 [Hm1 Hp1]]]].
-    assert (Es : pass1_ev o T (mkP fs0 [] []) (EvEnter []) = mkP f1 [] []).
-    { cbn [pass1_ev p_fs p_files p_tracked]. fold T in E1. rewrite E1. reflexivity. }
+    assert (Es : pass1_ev o T (mkP fs0 [] [] []) (EvEnter []) = mkP f1 [] [] []).
+    { cbn [pass1_ev p_fs p_files p_tracked p_idx]. fold T in E1. rewrite E1. reflexivity. }
     rewrite Es.
-    destruct (pass1_fold P t o evs' (mkP f1 [] []) Hp1) as [Ha [Hb [Hc [Hd [He [Hf _]]]]]].
-    cbn [p_fs p_files p_tracked] in *. fold T in Ha, Hb, Hc, Hd, He, Hf.
+    destruct (pass1_fold P t o evs' (mkP f1 [] [] []) Hp1) as [Ha [Hb [Hc [Hd [He Hf]]]]].
+    cbn [p_fs p_files p_tracked p_idx] in *. fold T in Ha, Hb, Hc, Hd, He, Hf.
     split; [exact Ha|]. split; [eapply local_trans; eauto|]. split; [|split].
     - intros d [<- | Hd']; [rewrite app_nil_r; exact Ha | apply Hd; exact Hd'].
-    - intros pc Hpc. destruct (He pc Hpc) as [[] | [d [n [c [m [loc [Hin ->]]]]]]].
-      exists d, n, c, m, loc. split; [right; exact Hin | reflexivity].
-    - intros l Hl. destruct (Hf l Hl) as [[] | [d [n [c [m [Hin Hpc]]]]]].
-      exists d, n, c, m. split; [right; exact Hin | exact Hpc]. }
-  destruct H1 as [HT1 [Hl1 [Hens [Hfiles Htr]]]].
+    - intros pc Hpc. destruct (He pc Hpc) as [[] | [d [nd [loc [Hin Hp]]]]].
+      exists d, nd, loc. split; [right; exact Hin | exact Hp].
+    - intros iv Hiv. destruct (Hf iv Hiv) as [[] | [d [nd Hin]]].
+      exists d, nd. right; exact Hin. }
+  destruct H1 as [HT1 [Hl1 [Hens [Hfiles Hidx]]]].
   destruct Hwf as [Wv [Wl [Wn Wc]]].
   fold used in Wv, Wl.
   assert (HG1 : G P t used (p_fs s1)).
@@ -169,26 +175,18 @@ Proof.
     - destruct (Wc _ _ _ _ He) as [y [Hy Hp]]. apply prefixb_spec in Hp as [r ->].
       specialize (Hens _ Hy). fold T. rewrite app_assoc in Hens. eapply physdir_prefix; exact Hens. }
   assert (Hleaf : forall pc, In pc (p_files s1) -> leafok P t used (fst pc)).
-  { intros pc Hpc. destruct (Hfiles pc Hpc) as [d [n [c [m [loc [Hin ->]]]]]]. cbn [fst].
-    destruct (Wv _ _ _ Hin) as [Hd [Hx _]]. exists d, n. cbn [node_name] in Hx. auto. }
+  { intros pc Hpc. destruct (Hfiles pc Hpc) as [d [nd [loc [Hin Hp]]]].
+    destruct (Wv _ _ _ Hin) as [Hd [Hx _]]. exists d, (node_name nd). auto. }
   (* restoreFiles *)
-  destruct (restore_files_spec P t used (o_delete o) (p_files s1) (p_fs s1) [] Hleaf) as [Hl2 [HG2 [_ Hn2]]].
-  { intros p []. }
-  { exact HG1. }
-  fold T in Hl2. fold fs2 in Hl2, HG2, Hn2.
+  destruct (restore_files_spec P t used (o_delete o) (p_files s1) (p_fs s1) Hleaf HG1) as [Hl2 HG2].
+  fold T in Hl2. fold fs2 in Hl2, HG2.
   (* pass 2 *)
-  set (FP := map fst (p_files s1)).
-  assert (HFP : forall p, In p FP -> exists d n c m loc, In (EvVisit d (NFile n c m) loc) evs /\ p = T ++ d ++ [n]).
-  { intros p Hp. unfold FP in Hp. apply in_map_iff in Hp as [pc [<- Hpc]].
-    destruct (Hfiles pc Hpc) as [d [n [c [m [loc [Hin ->]]]]]]. exists d, n, c, m, loc. auto. }
-  assert (HtrFP : forall l, mem_path l (p_tracked s1) = true ->
-             exists d n c m, In (EvVisit d (NFile n c m) l) evs /\ In (T ++ d ++ [n]) FP).
-  { intros l Hl. apply mem_path_In in Hl. destruct (Htr l Hl) as [d [n [c [m [Hin Hpc]]]]].
-    exists d, n, c, m. split; [exact Hin|]. unfold FP. apply in_map_iff. exists (T ++ d ++ [n], c). auto. }
-  destruct (pass2_fold P t used evs FP sel o (andb (o_delete o) (negb (t_invalid tr))) (p_tracked s1)
-              Wv Wl Wn HFP HtrFP evs fs2) as [_ Hl3].
+  assert (Hidx_ok : forall ino v, idx_find ino (p_idx s1) = Some v -> exists d nd, In (EvVisit d nd v) evs).
+  { intros ino v Hf. apply idx_find_In in Hf. exact (Hidx _ Hf). }
+  destruct (pass2_fold P t used evs sel o (andb (o_delete o) (negb (t_invalid tr))) (p_tracked s1) (p_idx s1)
+              Wv Wl Hidx_ok evs fs2) as [_ Hl3].
   { auto. }
-  { split; [exact HG2|]. intros p Hp. unfold FP in Hp. apply in_map_iff in Hp as [pc [<- Hpc]]. apply Hn2; exact Hpc. }
+  { exact HG2. }
   eapply local_trans; [exact Hl1|]. eapply local_trans; [exact Hl2 | exact Hl3].
 Qed.
 
@@ -303,3 +301,21 @@ Proof. vm_compute. repeat split. Qed.
 Example c18_wf_rejects_duplicates :
   wf_events [EvEnter []; EvVisit [] (NLink (str "x") [str "out"]) [str "x"]; EvVisit [] (NFile (str "x") 1 511) [str "x"]] = false.
 Proof. vm_compute. reflexivity. Qed.
+
+(* hard link group whose first member is a skipped pre-existing symlink to outside (--overwrite never):
+   the second member becomes a link to the symlink, its metadata restore is refused, the victim keeps its mode *)
+Example c18_nonvacuous_hardlink_to_symlink :
+  let fs := fs_of_view (([str "tgt"; str "f1"], ELink [str "out"; str "victim"]) :: ex_world) in
+  let tree := [NHard (str "f1") 1 420 1; NHard (str "f2") 1 420 1] in
+  let fs' := restore (mkO false false false) (sel_of true []) [str "tgt"] tree fs in
+  look fs' [str "tgt"; str "f2"] = Some (ELink [str "out"; str "victim"]) /\
+  look fs' [str "out"; str "victim"] = Some (EFile 4 384).
+Proof. vm_compute. repeat split. Qed.
+
+(* content that cannot be downloaded, symlink at the file's path: nothing is created, metadata is refused *)
+Example c18_nonvacuous_failed_download :
+  let fs := fs_of_view (([str "tgt"; str "f"], ELink [str "out"; str "victim"]) :: ex_world) in
+  let fs' := restore (mkO false true false) (sel_of true []) [str "tgt"] [NFile (str "f") bad_content 420] fs in
+  look fs' [str "tgt"; str "f"] = Some (ELink [str "out"; str "victim"]) /\
+  look fs' [str "out"; str "victim"] = Some (EFile 4 384).
+Proof. vm_compute. repeat split. Qed.
